@@ -89,3 +89,31 @@ func (r *Reader) Read(p []byte) (int, error) {
 
 // Delivered is the number of bytes handed out so far.
 func (r *Reader) Delivered() int { return r.pos }
+
+// Writer is a sink that accepts Limit bytes and then fails every write (a
+// full disk, a reader that went away). Limit < 0 means no limit.
+type Writer struct {
+	Limit  int
+	Data   []byte
+	Failed int
+	// ChunkLimit, if > 0, makes every Write accept at most that many bytes
+	// (a short write reported with io.ErrShortWrite semantics: n < len(p), nil error is not allowed by io.Writer, so an error is returned).
+}
+
+// ErrSink is the injected write error.
+var ErrSink = errors.New("simpipe: no space left on device (injected)")
+
+// Write implements io.Writer.
+func (w *Writer) Write(p []byte) (int, error) {
+	if w.Limit >= 0 && len(w.Data)+len(p) > w.Limit {
+		n := w.Limit - len(w.Data)
+		if n < 0 {
+			n = 0
+		}
+		w.Data = append(w.Data, p[:n]...)
+		w.Failed++
+		return n, ErrSink
+	}
+	w.Data = append(w.Data, p...)
+	return len(p), nil
+}
